@@ -1,10 +1,12 @@
 import Model.Server
+import Model.Client
 import Proofs.C07
+import Proofs.C17
 /-!
 # C08 — nothing crosses the STARTTLS boundary; AUTH only when permitted
 
-Property theorems over `Model/Server.lean`. TLS itself is an opaque byte pipe that starts empty
-(partial): what is proved is what the server does around it.
+Property theorems over `Model/Server.lean` and, for the client side, `Model/Client.lean` (`starttls`). TLS itself is an
+opaque byte pipe that starts empty (partial): what is proved is what the server and the client do around it.
 -/
 namespace Slimta.C08
 open Slimta Slimta.Server
@@ -107,5 +109,38 @@ theorem authed_only_after_235 (v : Verdicts) (ao : AuthOracle) (s : St) (mech : 
       rw [C07.finish_state] at hs; subst hs; simpa using h1
     subst he
     simp [finish, hcode])
+
+/-! ## the client side -/
+section ClientSide
+
+/-- **Nothing crosses the STARTTLS boundary on the client side.** A client that owes no reply sends STARTTLS; the
+    server's `220` arrives followed by any bytes at all in clear text (`junk`: forged replies, a half reply, anything).
+    The client's state after the handshake — what it will read next, the replies it has filled — is the same whatever
+    `junk` was: it reads from the TLS stream with an empty buffer. -/
+theorem client_handshake_discards_cleartext (s : Client.St) (hq : s.queue = []) (hf : s.failed = none) (hfresh : ∀ e ∈ s.filled, e.1 < s.next) (m : Bytes)
+    (hu : Reply.utf8Ok (normCRLF m) = true) (junk junk' : Bytes) (tls : List Bytes) :
+    Client.starttls { s with buf := Reply.encode [50, 50, 48] m ++ junk, segs := [] } tls =
+    Client.starttls { s with buf := Reply.encode [50, 50, 48] m ++ junk', segs := [] } tls := by
+  have key : ∀ j : Bytes, Client.starttls { s with buf := Reply.encode [50, 50, 48] m ++ j, segs := [] } tls =
+      { s with queue := [], next := s.next + 1, filled := s.filled ++ [(s.next, [50, 50, 48], normCRLF m)], buf := [], segs := tls } := by
+    intro j
+    obtain ⟨r, hr, hcode, hbody, hrest⟩ := Slimta.C17.reply_roundtrip [50, 50, 48] ⟨50, 50, 48, rfl, by decide, by decide, by decide⟩ (by decide) m hu j
+      (Reply.encode [50, 50, 48] m ++ j) [] (by simp) (by simp)
+    simp only [Client.starttls, Client.call, hf, Option.isSome_none, Bool.false_eq_true, if_false, Client.enqueue, hq, List.nil_append, Client.flushNow,
+      List.length_cons, List.length_nil, Client.flush, hr]
+    have hlook : Client.lookupFilled s.next (s.filled ++ [(s.next, r.code, r.body)]) = some (r.code, r.body) := by
+      unfold Client.lookupFilled
+      rw [List.find?_append]
+      have hnone : s.filled.find? (fun x => x.1 == s.next) = none := by
+        rw [List.find?_eq_none]
+        intro e he
+        have := hfresh e he
+        simp; omega
+      simp [hnone]
+    rw [hlook]
+    simp [hcode, hbody]
+  rw [key junk, key junk']
+
+end ClientSide
 
 end Slimta.C08
